@@ -318,3 +318,13 @@ texture sizes, plus random pairs; all are non-trivial; distinct by hash of (size
     rep.floor("coord.special_or_huge", 500);
     rep.floor("coord.negative", 1000);
 }
+
+/// Reduced workload for Miri: `n` coordinate pairs on small textures.
+pub fn mini(rng: &mut Rng, n: usize, rep: &mut Report) {
+    let pal = palette();
+    for i in 0..n {
+        let (w, h) = (rng.pick(&[1u32, 2, 3, 4, 8]), rng.pick(&[1u32, 2, 4, 5]));
+        let (u, v) = if i % 2 == 0 { (rng.pick(&pal), rng.f32_in(-3.0, 9.0)) } else { (rng.f32_in(-9.0, 9.0), rng.pick(&pal)) };
+        probe_both(rep, w, h, rng, u, v);
+    }
+}
